@@ -271,6 +271,9 @@ func (st *evalState) eval(f *Filter, in []Cell, ambiguous bool) []Cell {
 	return in
 }
 
+// HasInterleave reports whether the tree contains an interleave node.
+func HasInterleave(f *Filter) bool { return hasInterleave(f) }
+
 func hasInterleave(f *Filter) bool {
 	if f == nil {
 		return false
